@@ -77,4 +77,75 @@ theorem number_survives_other_number (R0 : Int) (ops : List Op) (op : Op) (a b :
 example : (members 0 ([] ++ [.add (GoVal.uint .w64 18446744073709551615).toNode] ++ [.remove (GoVal.int .wd (-1)).toNode])).find
     "18446744073709551615" = some (⟨"u", "18446744073709551615"⟩, 100) := by decide
 
+/-! ### clauses at full strength: end-to-end compositions -/
+
+/-- operations on other reprs do not touch the entry of `r` -/
+theorem find_foldl_other (R : Nat) (later : List Op) (m : SMap) (r : String) (h : ∀ op ∈ later, op.repr ≠ r) :
+    (later.foldl (specStep R) m).find r = m.find r := by
+  induction later generalizing m with
+  | nil => rfl
+  | cons op rest ih =>
+    simp only [List.foldl_cons]
+    rw [ih _ (fun o ho => h o (List.mem_cons_of_mem _ ho))]
+    exact specStep_find R m op r (fun e => h op (List.mem_cons_self) e.symm)
+
+/-- **a removed node is never returned — until it is added again**: after `Remove(n)`, however many operations on
+OTHER nodes follow (adds, re-weights, removes), no `Get` returns a value with `n`'s repr.  (`removed_never_returned`
+is the case `later = []`.) -/
+theorem removed_never_returned_until_readded (H : Hasher) (R0 : Int) (ops later : List Op) (n k v : Node)
+    (hl : ∀ op ∈ later, op.repr ≠ n.repr)
+    (h : get H (run H R0 (ops ++ [.remove n] ++ later)) k = .node v) : v.repr ≠ n.repr := by
+  obtain ⟨c, hf, _⟩ := get_member_only H R0 _ k v h
+  intro e
+  unfold members specRun at hf
+  rw [List.foldl_append, e, find_foldl_other _ later _ n.repr hl] at hf
+  have := specRun_snoc (CH.new R0).replicas ops (.remove n)
+  unfold specRun at this
+  rw [this] at hf
+  simp only [specStep] at hf
+  rw [find_del] at hf
+  simp at hf
+
+set_option maxRecDepth 100000 in
+example : get Pinned.W (run Pinned.W 0 ([.addR Pinned.n 3, .addR Pinned.n1 2] ++ [.remove Pinned.n] ++ [.addR Pinned.x 4, .addW Pinned.n1 1]))
+    ⟨"s", "key0"⟩ = .node Pinned.x := by decide
+
+/-- **users, call site → AddWithWeight → ring**: the dispatch of cache.New / kv.NewStore depends only on the
+configured membership (address ↦ last configured weight), not on the order of the configuration entries — any two
+configurations with the same membership, not only a swap of neighbours (`user_conf_order_irrelevant`). -/
+theorem user_dispatch_depends_on_membership_only (H : Hasher) (conf₁ conf₂ : List (Node × Int))
+    (h : ∀ r, (members (minReplicas : Int) (conf₁.map fun p => Op.addW p.1 p.2)).find r
+            = (members (minReplicas : Int) (conf₂.map fun p => Op.addW p.1 p.2)).find r) (k : Node) :
+    get H (userRing H conf₁) k = get H (userRing H conf₂) k := by
+  rw [userRing_is_run, userRing_is_run]
+  exact history_independent H _ _ _ h k
+
+set_option maxRecDepth 100000 in
+/-- non-vacuity: the hypothesis holds for a rotated configuration of three nodes -/
+example : get Pinned.W (userRing Pinned.W [(Pinned.n, 3), (Pinned.n1, 2), (Pinned.x, 4)]) ⟨"s", "key0"⟩
+    = get Pinned.W (userRing Pinned.W [(Pinned.x, 4), (Pinned.n, 3), (Pinned.n1, 2)]) ⟨"s", "key0"⟩ := by
+  apply user_dispatch_depends_on_membership_only
+  intro r
+  by_cases h1 : r = "n"
+  · subst h1; decide
+  · by_cases h2 : r = "n1"
+    · subst h2; decide
+    · by_cases h3 : r = "x"
+      · subst h3; decide
+      · have e1 : ("n" == r) = false := beq_eq_false_iff_ne.2 (Ne.symm h1)
+        have e2 : ("n1" == r) = false := beq_eq_false_iff_ne.2 (Ne.symm h2)
+        have e3 : ("x" == r) = false := beq_eq_false_iff_ne.2 (Ne.symm h3)
+        simp [members, specRun, specStep, SMap.set, SMap.del, SMap.find, List.find?, List.filter, Pinned.n, Pinned.n1,
+          Pinned.x, e1, e2, e3]
+
+/-- **typed end to end (value → lang.Repr → ring)**: for Go values of any integer kinds, `Get` on a ring that went
+through `Remove(a)` does not return a node with `a`'s repr, and `b` (another number) keeps its virtual nodes. -/
+theorem typed_remove_only_removes_that_number (H : Hasher) (R0 : Int) (ops : List Op) (a b : GoVal) (x y : Int)
+    (ha : a.math = some x) (hb : b.math = some y) (hxy : x ≠ y) (k v : Node)
+    (h : get H (run H R0 (ops ++ [.remove a.toNode])) k = .node v) :
+    v.repr ≠ reprOf a ∧
+      (members R0 (ops ++ [.remove a.toNode])).find (reprOf b) = (members R0 ops).find (reprOf b) :=
+  ⟨removed_never_returned H R0 ops a.toNode k v h,
+   distinct_numbers_do_not_alias R0 ops (.remove a.toNode) a b x y ha hb hxy rfl⟩
+
 end GoZero.C15
